@@ -12,7 +12,7 @@ def run(chk, only=None):
     jobs = hj_run.jobs_one(hj_run.CLAUSES_C02 + ['inv'], nmax, Hmax, 600 if quick else 3000)
     jobs += hj_run.jobs_jumpoff(hj_run.CLAUSES_C02, nmax, Hmax, 600 if quick else 3000)
     if only:
-        jobs = [j for j in jobs if only in '%s %s' % (j[4], j[5])]
+        jobs = [j for j in jobs if only in '%s %s' % (j[4], j[5]) or only in repr(j)]
     hj_run.common_evidence(chk, nmax, Hmax)
     chk.bounds['clauses'] = 'refusal raises RuleViolation and leaves every observable unchanged; accepted <=> the rules of the property text on the cards; log grows by exactly the call; state order never decreases'
     print('C02: %d (shape, call) jobs' % len(jobs), flush=True)
